@@ -341,7 +341,7 @@ def cases(draw):
             c["preempt"] = {str(draw(st.integers(1, 2600))): draw(st.integers(1, 2)) for _ in range(draw(st.integers(1, 2)))}
         if draw(st.booleans()):
             # preemption at a place: the k-th line executed inside one of the functions where the threads meet
-            c["preempt_at"] = {site: {str(draw(st.integers(1, 12 if site.endswith(":close") else 60))): draw(st.integers(1, 2))}
+            c["preempt_at"] = {site: {str(draw(st.integers(1, 12 if site.endswith(":close") else 60))): draw(st.sampled_from([1, 2, 1, 2, [1, 4], [2, 20]]))}
                                for site in draw(st.lists(st.sampled_from(RACE_SITES), min_size=1, max_size=2, unique=True))}
     return c
 
